@@ -1026,4 +1026,223 @@ theorem syncLoop_nodiscont (bk : Backend) (L : Leader β) (lost : Nat) (x : Id)
                 rw [hcd] at hd; cases hd
                 rw [hoff]
 
+
+theorem getD_append_none (l : Dirs β) (x : Id) (h : getD l x = none) :
+    getD (l ++ [(x, none)]) x = some none := by
+  induction l with
+  | nil => simp [getD]
+  | cons p r ih =>
+    obtain ⟨k, w⟩ := p
+    simp only [getD, List.cons_append] at h ⊢
+    split at h
+    · cases h
+    · next hk => rw [if_neg hk]; exact ih h
+
+theorem curData_none_of_get {F : Store β} (h : F.get F.cur = none ∨ F.get F.cur = some none) :
+    F.curData = none := by
+  unfold Store.curData
+  rcases h with h | h <;> rw [h]
+
+theorem newRunIdDisk_curData (F : Store β) (x : Id) (hx1 : x ≠ "") (hx2 : x ≠ "?")
+    (h : getD F.dirs x = none ∨ getD F.dirs x = some none) : (newRunIdDisk F x).curData = none := by
+  have hsp := special_false hx1 hx2
+  rcases h with h | h
+  · rw [newRunIdDisk_new hsp (has_false_iff.mpr h)]
+    exact curData_none_of_get (Or.inr (getD_append_none _ _ h))
+  · have hh : F.has x = true := by simp [Store.has, Store.get, h]
+    rw [newRunIdDisk_has hsp hh]
+    exact curData_none_of_get (Or.inr h)
+
+theorem adopt_curData (bk : Backend) (F : Store β) (x : Id) (hx1 : x ≠ "") (hx2 : x ≠ "?")
+    (hwf : WF bk F) (hcur : F.cur = x → F.curData = none)
+    (hdisk : bk = .disk → getD F.dirs x = none ∨ getD F.dirs x = some none) :
+    (adopt bk F x).curData = none := by
+  unfold adopt
+  cases bk with
+  | disk =>
+    have hg := hdisk rfl
+    obtain ⟨hc0, hq⟩ := hwf
+    by_cases hc : F.cur = ""
+    · have : (F.cur ≠ "" && F.cur ≠ x) = false := by simp [hc]
+      rw [this]
+      simp only [Bool.false_eq_true, if_false]
+      rw [setRunId_disk_nocur hc]
+      exact newRunIdDisk_curData F x hx1 hx2 hg
+    · have hhc : F.has F.cur = true := hc0.resolve_left hc
+      by_cases hcx : F.cur = x
+      · have : (F.cur ≠ "" && F.cur ≠ x) = false := by simp [hcx]
+        rw [this]
+        simp only [Bool.false_eq_true, if_false]
+        rw [setRunId_at .disk F x hx1 hx2 (At.mk_disk hcx (hcx ▸ hhc))]
+        exact hcur hcx
+      · have : (F.cur ≠ "" && F.cur ≠ x) = true := by simp [hc, hcx]
+        rw [this]
+        simp only [if_true]
+        rw [delRunId_disk_has (special_false hc hq) hhc, setRunId_disk_nocur rfl]
+        apply newRunIdDisk_curData _ x hx1 hx2
+        simp only
+        rw [getD_dropKey_ne _ (Ne.symm hcx)]
+        exact hg
+  | mem =>
+    obtain ⟨hkeys, hnil, hq⟩ := hwf
+    by_cases hcx : F.cur = x
+    · have : (F.cur ≠ "" && F.cur ≠ x) = false := by simp [hcx]
+      rw [this]
+      simp only [Bool.false_eq_true, if_false]
+      rw [setRunId_at .mem F x hx1 hx2 (At.mk_mem hcx (fun p hp => by rw [← hcx]; exact hkeys p hp))]
+      exact hcur hcx
+    · have hempty : (if (F.cur ≠ "" && F.cur ≠ x) = true then delRunId .mem F F.cur else F).dirs = [] := by
+        by_cases hc : F.cur = ""
+        · have : (F.cur ≠ "" && F.cur ≠ x) = false := by simp [hc]
+          rw [this]
+          simpa using hnil hc
+        · have : (F.cur ≠ "" && F.cur ≠ x) = true := by simp [hc, hcx]
+          rw [this]
+          simp only [if_true]
+          rw [delRunId_mem_cur]
+      simp only [setRunId, hempty, List.map_nil]
+      simp [Store.curData, Store.get, getD]
+
+/-- what `StartPoint([x])` answers: either not `x` and then nothing is held for `x`, or
+    `x` with the end of the data held for it -/
+theorem startPoint_pos (bk : Backend) (F : Store β) (x : Id) (hx1 : x ≠ "") (hx2 : x ≠ "?")
+    (hwf : WF bk F) :
+    ((startPoint bk F x).2.1 ≠ x →
+        ((startPoint bk F x).1.cur = x → (startPoint bk F x).1.curData = none) ∧
+        (bk = .disk → getD (startPoint bk F x).1.dirs x = none ∨
+            getD (startPoint bk F x).1.dirs x = some none)) ∧
+      ((startPoint bk F x).2.1 = x → Pos (startPoint bk F x).1 (startPoint bk F x).2) := by
+  have hsp := special_false hx1 hx2
+  cases bk with
+  | disk =>
+    simp only [startPoint, hsp, Bool.false_eq_true, if_false]
+    cases hg : F.get x with
+    | none =>
+      have hnx : F.has x = false := by simp [Store.has, hg]
+      obtain ⟨hcur, _⟩ := hwf
+      have hcx : F.cur ≠ x := by
+        intro e
+        rcases hcur with h0 | hh
+        · exact hx1 (e ▸ h0)
+        · rw [e, hnx] at hh; cases hh
+      simp only
+      refine ⟨fun _ => ⟨fun e => absurd e hcx, fun _ => Or.inl hg⟩, ?_⟩
+      intro he
+      by_cases hc : F.cur = ""
+      · simp [hc] at he; exact absurd he.symm hx2
+      · simp only [hc, if_false] at he; exact absurd he hcx
+    | some v =>
+      have hhx : F.has x = true := by simp [Store.has, hg]
+      have hset : setRunId .disk F x = { F with cur := x } := setRunId_disk_has hsp hhx
+      simp only [hset]
+      cases v with
+      | none =>
+        simp only [latest]
+        refine ⟨fun _ => ⟨fun _ => curData_none_of_get (Or.inr hg), fun _ => Or.inr hg⟩, ?_⟩
+        intro he
+        simp at he
+        exact absurd he.symm hx2
+      | some d =>
+        have : ¬ latest (some d) < 0 := by simp only [latest]; omega
+        rw [if_neg this]
+        refine ⟨fun hne => absurd rfl hne, fun _ => ?_⟩
+        intro d' hd'
+        have : ({ F with cur := x } : Store β).curData = some d := by
+          simp only [Store.curData, Store.get]
+          have : getD F.dirs x = some (some d) := hg
+          rw [this]
+        rw [this] at hd'
+        cases hd'
+        rfl
+  | mem =>
+    simp only [startPoint]
+    split
+    · next hc =>
+      have hxc : x = F.cur := by simpa [hsp] using hc
+      refine ⟨fun hne => absurd hxc.symm hne, fun _ => ?_⟩
+      intro d hd
+      simp only [hd, latest]
+    · next hc =>
+      have hxc : ¬ x = F.cur := by simpa [hsp] using hc
+      refine ⟨fun _ => ⟨fun e => absurd e.symm hxc, fun h => by cases h⟩, ?_⟩
+      intro he
+      exact absurd he.symm hx2
+
+theorem preSync_pos (bk : Backend) (F : Store β) (x : Id) (loff : Int) (hx1 : x ≠ "")
+    (hx2 : x ≠ "?") (hwf : WF bk F) : Pos (preSync bk F x loff).1 (preSync bk F x loff).2 := by
+  unfold preSync
+  have hs := startPoint_ok bk F x hx1 hx2 hwf
+  have hp := startPoint_pos bk F x hx1 hx2 hwf
+  generalize startPoint bk F x = r at hs hp ⊢
+  obtain ⟨F1, sp⟩ := r
+  obtain ⟨hwf1, hd1, hat1⟩ := hs
+  simp only at hwf1 hd1 hat1 hp ⊢
+  split
+  · next hcond =>
+    have hne : sp.1 ≠ x := by
+      intro e
+      simp only [Bool.or_eq_true, decide_eq_true_eq, e] at hcond
+      rcases hcond with (h | h) | h
+      · exact hx2 h
+      · exact hx1 h
+      · exact h rfl
+    have := hp.1 hne
+    intro d hd
+    rw [adopt_curData bk F1 x hx1 hx2 hwf1 this.1 this.2] at hd
+    cases hd
+  · next hcond =>
+    have hspx : sp.1 = x := by
+      simp only [Bool.or_eq_true, decide_eq_true_eq, not_or, ne_eq, Decidable.not_not] at hcond
+      exact hcond.2
+    have hat := hat1 hspx
+    have hpos := hp.2 hspx
+    split
+    · split
+      · rw [hspx]
+        intro d hd
+        rw [(reset_at bk F1 x hx1 hx2 hat).2.2] at hd
+        cases hd
+      · rw [setRunId_at bk F1 x hx1 hx2 hat]
+        exact hpos
+    · exact hpos
+
+/-- the handshake answer carries the leader's channel id (or none) -/
+theorem handle_hello_id (L : Leader β) (roff : Int) (ch : List Nat) (m : Msg β) (ms : List (Msg β))
+    (hms : (L.handle "" roff ch).msgs = m :: ms) : m.runId = L.cur ∨ m.runId = "" := by
+  unfold Leader.handle at hms
+  split at hms
+  · cases hms
+  · split at hms
+    · simp only [List.cons.injEq] at hms; rw [← hms.1]; exact Or.inr rfl
+    · split at hms
+      · simp only [List.cons.injEq] at hms; rw [← hms.1]; exact Or.inr rfl
+      · simp only [decide_true, if_true, List.cons.injEq, Bool.true_or] at hms
+        rw [← hms.1]; exact Or.inl rfl
+
+theorem session_nodiscont (bk : Backend) (L : Leader β) (F : Store β) (ch : List Nat)
+    (cut lost fuel : Nat) (hq : L.cur ≠ "?") (hwf : WF bk F) :
+    (session bk L F ch cut lost fuel).cls ≠ .discont := by
+  unfold session
+  have hh := handle_hello_id L 0 ch
+  generalize L.handle "" 0 ch = rp at hh ⊢
+  obtain ⟨msgs, fin, rest⟩ := rp
+  simp only at hh ⊢
+  cases cut with
+  | zero => simp
+  | succ b =>
+    cases msgs with
+    | nil => exact finCls_ne_discont _
+    | cons m ms =>
+      simp only [Out.pre]
+      split
+      · next c hc => exact respErr_ne_discont hc
+      · split
+        · simp
+        · next hne =>
+          have hx : m.runId = L.cur := (hh m ms rfl).resolve_right hne
+          have hx2 : m.runId ≠ "?" := hx ▸ hq
+          have hp := preSync_ok bk F m.runId m.offset hne hx2 hwf
+          exact syncLoop_nodiscont bk L lost m.runId hne hx2 fuel b _ _ _ hp.1 hp.2.1
+            (preSync_pos bk F m.runId m.offset hne hx2 hwf)
+
 end GunYu.Replica
